@@ -111,6 +111,11 @@ func writeReplay(w *World, r *Result, path, prop string) bool {
 				}
 			}
 		}
+		if sr := credentialsReplay(r); sr != "" {
+			fmt.Fprintf(&b, "\nThe obligation is about information flow from the credentials. Two CONNECT packets differing only in equally long credentials render differently on the real code (replay aid, not part of the proof):\n%s\nreplay: CONFIRMED on the real code\n", sr)
+			os.WriteFile(path, b.Bytes(), 0o644)
+			return true
+		}
 		if sr := determinismReplay(r); sr != "" {
 			fmt.Fprintf(&b, "\nThe obligation is about iteration order. Encoding the same packet repeatedly on the real code gives different bytes (replay aid, not part of the proof):\n%s\nreplay: CONFIRMED on the real code\n", sr)
 			os.WriteFile(path, b.Bytes(), 0o644)
